@@ -45,7 +45,10 @@ def pat_info(p):
     if isinstance(p, encoding.VariablePattern):
         prop = p.prop
         if isinstance(prop, encoding.Transform):
-            return {"field": p.field, "transform": type(prop).__name__, "operand": getattr(prop.wrapped, "_name", None)}
+            w = getattr(prop, "_wrapped", None)
+            while isinstance(w, encoding.Transform):
+                w = getattr(w, "_wrapped", None)
+            return {"field": p.field, "transform": type(prop).__name__, "operand": getattr(w, "_name", None)}
         return {"field": p.field, "operand": getattr(prop, "_name", None)}
     return {"field": getattr(p, "field", None), "other": type(p).__name__}
 
@@ -84,6 +87,7 @@ def ctor_info(c):
         pats = [pat_info(p) for p in c.dict_to_patterns(c.patterns)]
     except Exception as e:
         pats = None
+        out["errors"].append("patterns of %s: %r" % (c.__name__, e))
     toks = [t.__name__ for t in getattr(c, "tokens", [])]
     d = {"name": c.__name__, "uid": uid_of(c), "module": c.__module__, "file": f, "line": l, "tokens": toks, "patterns": pats,
          "syntax": syn, "priority": prio, "operands": operands_of(c),
